@@ -208,8 +208,12 @@ func (hc *HashChain) Fill(argb []uint32, quality int, xsize, ysize int, lowEffor
 	}
 
 	// Decide between parallel and serial second pass.
+	// The choice must depend on the picture only, never on the number of CPUs:
+	// the two passes do not find identical matches, and Encode promises output
+	// that depends only on its arguments. With a single CPU the "parallel" pass
+	// simply runs with one worker.
 	numWorkers := runtime.GOMAXPROCS(0)
-	if numWorkers > 1 && size > 50000 && !lowEffort {
+	if size > 50000 && !lowEffort {
 		hc.fillParallel(argb, xsize, size, iterMax, winSize, numWorkers)
 	} else {
 		hc.fillSerial(argb, xsize, size, iterMax, lowEffort, winSize)
